@@ -268,11 +268,6 @@ def _proto_tp(it, v):
         it.ctx.assume(ok(st.get_field(r, f)))
 
 
-c = contract(GR, "__convert_metric_definition", [], coarse=True)
-c.param("metrics", VAL)
-c.result = FRESH("list")
-c.logged = "convert_metrics"
-c.modifies = lambda S_: []
 
 c = contract(GR, "convert_response", ["C11", "C03"])
 c.param("response", LIST(P("obj", cls="proto", inv=False)))
@@ -287,15 +282,21 @@ def _cr_body(L):
     an uninterpretable one (None) contributes nothing; a new location is added, a known location gets the new
     actions merged into it (keeps all of its actions)."""
     bt = [e for e in L.iter_log() if e.label == "build_trigger"]
-    if len(bt) != 1:
-        return [("built-once-per-tracepoint", z3.BoolVal(False))]
-    b = bt[0]
+    cm = [e for e in L.iter_log() if e.label == "convert_metrics"]
     r = L.seq.element(L.index)
     h0, h1 = L.at_iteration_start(), L.now()
     table = L.local("all_triggers")
     same = And(h1.dhas_arr(table) == h0.dhas_arr(table), h1.dval_arr(table) == h0.dval_arr(table))
+    if not bt and len(cm) == 1 and cm[0].raised:
+        # its metric definitions cannot be interpreted (unknown metric type): this tracepoint only is left out
+        return [("uninterpretable-tracepoint-contributes-nothing", same)]
+    if len(bt) != 1:
+        return [("built-once-per-tracepoint", z3.BoolVal(False))]
+    b = bt[0]
     return [("built-from-its-own-fields", And(b.args[0] == h0.f(r, "ID"), b.args[1] == h0.f(r, "path"),
-                                              b.args[2] == h0.f(r, "line_number"))),
+                                              b.args[2] == h0.f(r, "line_number"),
+                                              z3.BoolVal(len(cm) == 1), cm[0].args[0] == h0.f(r, "metrics") if cm else z3.BoolVal(False),
+                                              b.args[5] == cm[0].result if cm and cm[0].result is not None else z3.BoolVal(False))),
             ("uninterpretable-tracepoint-contributes-nothing", Implies(Val.is_VNone(b.result), same))]
 
 
